@@ -670,14 +670,55 @@ def _builtin(s, ctx, func, g, tc, A, caller, ln, last):
     if E('Cell::new'): return Agg('Cell', 0, [A[0]])
     if E('Cell::get'): return clone_val(deref_all(A[0]).fields[0])
     if E('Cell::set'): deref_all(A[0]).fields[0] = A[1]; return unit()
-    if E('LocalKey::with') or E('LocalKey::try_with'):
+    if re.search(r'LocalKey::(with|try_with|with_borrow|with_borrow_mut|set|get|take|replace)$', g):
         key = deref_all(A[0])
         if ctx.tid not in key.per_thread:
             v = key.init() if callable(key.init) else key.init
             if isinstance(v, RefCellM): v.name = key.name.split('::')[-1]
             key.per_thread[ctx.tid] = Cell(v, key.name)
-        r = yield from s.call_callable(ctx, A[1], [Ref(key.per_thread[ctx.tid])])
-        return r if last == 'with' else ok(r)
+        slot = key.per_thread[ctx.tid]
+        if last in ('with', 'try_with'):
+            r = yield from s.call_callable(ctx, A[1], [Ref(slot)])
+            return r if last == 'with' else ok(r)
+        inner = slot.v
+        if isinstance(inner, RefCellM):
+            if last in ('with_borrow', 'with_borrow_mut'):
+                mode = 'w' if last.endswith('mut') else 'r'
+                if (mode == 'w' and inner.state != 0) or (mode == 'r' and inner.state < 0): raise Panic('RefCell already borrowed (thread-local with_borrow) on ' + inner.name, 'refcell')
+                inner.state = -1 if mode == 'w' else inner.state + 1
+                try: r = yield from s.call_callable(ctx, A[1], [Ref(inner.inner)])
+                finally: inner.state = 0 if mode == 'w' else inner.state - 1
+                return r
+            if inner.state != 0: raise Panic('RefCell already borrowed (thread-local ' + last + ') on ' + inner.name, 'refcell')
+            old = inner.inner.v
+            if last == 'set': inner.inner.v = A[1]; return unit()
+            if last == 'replace': inner.inner.v = A[1]; return old
+            if last == 'take': inner.inner.v = _default_like(old); return old
+        if isinstance(inner, Agg) and inner.ty == 'Cell':
+            old = inner.fields[0]
+            if last == 'get': return clone_val(old)
+            if last == 'set': inner.fields[0] = A[1]; return unit()
+            if last == 'replace': inner.fields[0] = A[1]; return old
+            if last == 'take': inner.fields[0] = _default_like(old); return old
+        raise Unsupported('LocalKey::' + last + ' on ' + type(inner).__name__)
+    if re.search(r'Cell::(replace|take|into_inner|get_mut|update)$', g) and isinstance(deref_all(A[0]), Agg) and deref_all(A[0]).ty == 'Cell':
+        c_ = deref_all(A[0]); old = c_.fields[0]
+        if last == 'replace': c_.fields[0] = A[1]; return old
+        if last == 'take': c_.fields[0] = _default_like(old); return old
+        if last == 'into_inner': return old
+        if last == 'get_mut': return Ref(SlotCell(c_.fields, 0))
+        v_ = yield from s.call_callable(ctx, A[1], [clone_val(old)]); c_.fields[0] = v_; return unit()
+    if re.search(r'RefCell::(replace|take|into_inner|get_mut|swap|replace_with)$', g) and isinstance(deref_all(A[0]), RefCellM):
+        rc = deref_all(A[0])
+        if last in ('into_inner',): return rc.inner.v
+        if last == 'get_mut': return Ref(rc.inner)
+        if rc.state != 0: raise Panic('RefCell already borrowed (' + last + ') on ' + rc.name, 'refcell')
+        old = rc.inner.v
+        if last == 'replace': rc.inner.v = A[1]; return old
+        if last == 'take': rc.inner.v = _default_like(old); return old
+        if last == 'replace_with':
+            nv = yield from s.call_callable(ctx, A[1], [Ref(rc.inner)]); rc.inner.v = nv; return old
+        o2 = deref_all(A[1]); rc.inner.v, o2.inner.v = o2.inner.v, rc.inner.v; return unit()
     if re.search(r'RefCell::(borrow|borrow_mut|try_borrow|try_borrow_mut)$', g):
         rc = deref_all(A[0]); mode = 'w' if 'mut' in last else 'r'
         bad = (mode == 'w' and rc.state != 0) or (mode == 'r' and rc.state < 0)
@@ -827,6 +868,7 @@ def _builtin(s, ctx, func, g, tc, A, caller, ln, last):
     if re.search(r'Atomic(U64|Usize|U32|<.*>)?::new$', g) or E('Atomic::new'): return Agg('Atomic', 0, [A[0]])
     if re.search(r'Atomic\w*::(fetch_add|fetch_sub|load|store|swap|compare_exchange|compare_exchange_weak|fetch_max|fetch_min)$', g):
         a = deref_all(A[0])
+        if isinstance(a, tuple) and isinstance(A[0], Ref): a = yield from s.force_static(ctx, A[0])          # a plain `static X: AtomicU64` touched for the first time
         if getattr(s, 'sched_atomics', False): yield from s.sched_point(ctx, 'atomic')
         old = a.fields[0]
         if last == 'load': return old
@@ -841,7 +883,29 @@ def _builtin(s, ctx, func, g, tc, A, caller, ln, last):
         if last.startswith('compare_exchange'):
             if ctx.branch(v_eq(old, A[1])): a.fields[0] = A[2]; return ok(old)
             return err(old)
+        if last in ('fetch_max', 'fetch_min'):
+            bigger = ctx.branch(A[1] > old)
+            if bigger == (last == 'fetch_max'): a.fields[0] = A[1]
+            return old
         raise Unsupported('atomic ' + last)
+    if re.search(r'Atomic\w*::(fetch_update|fetch_and|fetch_or|fetch_xor|fetch_nand|into_inner|get_mut)$', g) or re.search(r'Atomic(::<.*>)?::(fetch_update|into_inner|get_mut)$', func):
+        a = deref_all(A[0])
+        if isinstance(a, tuple) and isinstance(A[0], Ref): a = yield from s.force_static(ctx, A[0])
+        old = a.fields[0]
+        if last == 'into_inner': return old
+        if last == 'get_mut': return Ref(SlotCell(a.fields, 0))
+        if getattr(s, 'sched_atomics', False): yield from s.sched_point(ctx, 'atomic')
+        if last == 'fetch_update':
+            o = yield from s.call_callable(ctx, A[3], [old])
+            if o.variant == 0: return err(old)
+            a.fields[0] = o.fields[0]; return ok(old)
+        if isinstance(old, bool) or (is_z3(old) and z3.is_bool(old)):
+            x, y = old, A[1]
+            a.fields[0] = {'fetch_and': b_and(x, y), 'fetch_or': b_or(x, y), 'fetch_xor': simp(z3.Xor(x, y)) if is_z3(x) or is_z3(y) else (x != y), 'fetch_nand': b_not(b_and(x, y))}[last]
+            return old
+        if is_conc(old) and is_conc(A[1]):
+            a.fields[0] = {'fetch_and': old & A[1], 'fetch_or': old | A[1], 'fetch_xor': old ^ A[1], 'fetch_nand': ~(old & A[1]) & MAXU64}[last]; return old
+        raise Unsupported('atomic ' + last + ' on symbolic integers')
     # ------------------------------------------------------------ clone / eq of plain data
     if tc and tc[1] == 'Clone' and tc[2] == 'clone':
         v = deref(A[0])
@@ -995,6 +1059,19 @@ def subst_type(ctx, ty):
 
 
 def _unsup(msg): raise Unsupported(msg)
+
+
+def _default_like(v):
+    """Default::default() of the type a value has (what mem::take / Cell::take leave behind)"""
+    v = deref_all(v)
+    if isinstance(v, bool): return False
+    if is_conc(v) or is_z3(v): return 0
+    if isinstance(v, Str): return Str('')
+    if isinstance(v, SeqM): return SeqM(kind=v.kind)
+    if isinstance(v, MapM): return MapM(kind=v.kind)
+    if isinstance(v, Agg) and v.ty == 'Option': return none()
+    if isinstance(v, Agg) and v.ty == 'tuple': return Agg('tuple', 0, [_default_like(x) for x in v.fields])
+    raise Unsupported('default value of ' + (v.ty if isinstance(v, Agg) else type(v).__name__))
 
 
 def _norm_ty(t):
